@@ -283,7 +283,7 @@ func init() {
 		Name: "packets", Weight: 1,
 		N: func(tier string, seed uint64) uint64 {
 			if tier == "thorough" {
-				return 3000000
+				return 7000000
 			}
 			return 150000
 		},
